@@ -11,7 +11,8 @@
 //!     that only ever attached genesis..=tip in order — must agree column by column (exactly for the
 //!     main-chain view columns, on the main chain's keys for the per-block records), the raw bytes
 //!     of the view columns must be identical, and the chain-root MMR nodes below the tip's mmr size
-//!     must be identical. Published snapshots (kept by the writer after every op and grabbed by a
+//!     must be identical. Every block is built valid against the replay of its own branch, so the
+//!     node must accept it (`valid-block-rejected`: verification read a state that is not the replay). Published snapshots (kept by the writer after every op and grabbed by a
 //!     reader thread at random instants) are checked against the replay of the chain their own tip
 //!     names, and must never change afterwards.
 //!
@@ -377,6 +378,8 @@ pub struct Exec<'a> {
     truncated: bool,
     reader: Option<Reader>,
     pub reorg_depths: BTreeSet<u64>,
+    /// special reorg shapes reached in this case ("aba", "same-epoch-number", "multi-spend")
+    pub reorg_shapes: BTreeSet<String>,
     pub stale_epnum_seen: bool,
 }
 
@@ -398,6 +401,7 @@ impl<'a> Exec<'a> {
             truncated: false,
             reader: None,
             reorg_depths: BTreeSet::new(),
+            reorg_shapes: BTreeSet::new(),
             stale_epnum_seen: false,
         }
     }
@@ -674,6 +678,23 @@ impl<'a> Exec<'a> {
                     }
                     store.get_block_header(&h).unwrap().number()
                 };
+                // attached blocks below the new block whose ext is already verified (verified_len of find_fork)
+                let reattached_verified = {
+                    let store = self.node.as_ref().unwrap().store();
+                    let mut k = 0u64;
+                    let mut h = blk.parent_hash();
+                    loop {
+                        let hd = store.get_block_header(&h).unwrap();
+                        if hd.number() <= common_before {
+                            break;
+                        }
+                        if store.get_block_ext(&h).map(|e| e.verified == Some(true)).unwrap_or(false) {
+                            k += 1;
+                        }
+                        h = hd.parent_hash();
+                    }
+                    k
+                };
                 let r = self.node.as_ref().unwrap().process(&blk);
                 let res = match &r {
                     Ok(true) => "new",
@@ -683,6 +704,12 @@ impl<'a> Exec<'a> {
                 if let Err(e) = &r {
                     self.out.count("block_rejected");
                     eprintln!("C02: block {} rejected: {}", id, e);
+                    // every block of this stream is built valid against the replay of its own branch
+                    // (ChainBuilder: cellbase, DAO, epoch, chain root computed on a reference store), so a
+                    // rejection means verification, which reads cells / MMR / epoch through the reorg
+                    // transaction, saw a chain state that is not that replay
+                    let kind: String = e.chars().take_while(|c| c.is_ascii_alphanumeric() || *c == '(' || *c == '_').collect();
+                    self.out.oracle_fail("valid-block-rejected", &format!("block {} (parent {}, number {}) rejected: {}", id, parent, number, kind));
                 }
                 let new_tip = self.node.as_ref().unwrap().tip();
                 if new_tip.hash() == blk.hash() && blk.parent_hash() != old_tip.hash() {
@@ -691,6 +718,46 @@ impl<'a> Exec<'a> {
                     self.reorg_depths.insert(depth);
                     self.out.count("reorg");
                     self.out.count(&format!("reorg_depth_{:02}", depth));
+                    if reattached_verified > 0 {
+                        // A -> B -> A': blocks verified earlier are attached again without verification
+                        self.out.count("reorg_reattaching_verified_blocks");
+                        self.reorg_shapes.insert("aba".into());
+                    }
+                    // both tips inside one epoch number, fork point before that epoch's first block,
+                    // new tip not an epoch head: only `fork.has_detached()` rewrites META current-epoch
+                    let e_new = blk.epoch();
+                    if old_tip.epoch().number() == e_new.number() && e_new.index() != 0 && common_before + e_new.index() < blk.number() {
+                        self.out.count("reorg_inside_epoch_number_fork_before_boundary");
+                        self.reorg_shapes.insert("same-epoch-number".into());
+                    }
+                    // a detached block with a transaction spending two outputs of one transaction that stays on the main chain
+                    {
+                        let mut det = vec![];
+                        let mut x = *self.ids.blk.get(&old_tip.hash()).expect("old tip id");
+                        while self.ablocks[&x].number > common_before {
+                            det.push(x);
+                            x = self.ablocks[&x].parent;
+                        }
+                        let det_txs: HashSet<u64> = det.iter().flat_map(|b| self.ablocks[b].txs.iter().cloned()).collect();
+                        let mut hit = false;
+                        for b in &det {
+                            let mut per_parent: HashMap<u64, u32> = HashMap::new();
+                            for t in &self.ablocks[b].txs {
+                                for (p, _) in &self.atxs[t].inputs {
+                                    if !det_txs.contains(p) {
+                                        *per_parent.entry(*p).or_insert(0) += 1;
+                                    }
+                                }
+                            }
+                            if per_parent.values().any(|c| *c >= 2) {
+                                hit = true;
+                            }
+                        }
+                        if hit {
+                            self.out.count("reorg_detaching_multi_spend_of_one_tx");
+                            self.reorg_shapes.insert("multi-spend".into());
+                        }
+                    }
                 } else if new_tip.hash() == blk.hash() {
                     self.out.count("extend");
                 } else {
@@ -890,7 +957,15 @@ impl Gen {
             }
             let nin = if pool.len() >= 2 && rng.chance(1, 4) { 2 } else { 1 };
             let mut ins: Vec<(u64, u32)> = vec![];
-            for _ in 0..nin {
+            // one transaction spending TWO outputs of one earlier transaction: when its block is
+            // detached, detach_block_cell must restore each of them from the one tx-info row
+            let twins: Vec<u64> = pool.iter().filter(|x| x.1 == 0 && pool.contains(&(x.0, 1))).map(|x| x.0).collect();
+            if !twins.is_empty() && rng.chance(1, 3) {
+                let t = *rng.pick(&twins);
+                ins = vec![(t, 0), (t, 1)];
+                ex.out_count("tx_spending_two_outputs_of_one_tx");
+            }
+            for _ in 0..(if ins.is_empty() { nin } else { 0 }) {
                 let x = *rng.pick(&pool);
                 if !ins.contains(&x) {
                     ins.push(x);
@@ -975,12 +1050,38 @@ fn gen_case(ex: &mut Exec, rng: &mut Rng, case: u64, target_blocks: u64) {
     }
     let mut g = Gen { next_tx: 100, next_blk: 1, l, w };
     let mut tips: Vec<u64> = vec![];
+    let mut old_mains: Vec<u64> = vec![];
     let _ = case;
     while g.next_blk <= target_blocks {
         let tip = ex.tip_id();
         let tipn = ex.ablocks[&tip].number;
         let r = rng.below(100);
-        if r < 45 || tipn < 3 {
+        // blocks that were the verified main tip before a reorg and are off the main chain now
+        old_mains.retain(|a| {
+            let mut x = tip;
+            while ex.ablocks[&x].number > ex.ablocks[a].number {
+                x = ex.ablocks[&x].parent;
+            }
+            x != *a
+        });
+        if r < 38 || tipn < 3 {
+            g.build(ex, rng, tip, true);
+        } else if r < 45 && !old_mains.is_empty() {
+            // A -> B -> A': extend a branch that was verified and main until it wins again, so that
+            // find_fork's attached list starts with already verified blocks (verified_len > 0)
+            let i = rng.below(old_mains.len() as u64) as usize;
+            let mut p = old_mains.remove(i);
+            let mut need = tipn + 1 - ex.ablocks[&p].number.min(tipn);
+            while need > 0 && g.next_blk <= target_blocks + 12 {
+                let busy = rng.chance(1, 2);
+                p = g.build(ex, rng, p, busy);
+                need -= 1;
+            }
+            if ex.tip_id() == p {
+                old_mains.push(tip);
+            }
+            ex.out_count("aba_attempt");
+        } else if r < 45 {
             g.build(ex, rng, tip, true);
         } else if r < 65 {
             // a fork of depth d that overtakes the main chain (reorg of depth d), the main chain racing sometimes
@@ -998,6 +1099,9 @@ fn gen_case(ex: &mut Exec, rng: &mut Rng, case: u64, target_blocks: u64) {
                     }
                 }
             }
+            if ex.tip_id() == p {
+                old_mains.push(tip);
+            }
         } else if r < 75 {
             // F9 shape: a fork that diverges before an epoch boundary and crosses it while staying
             // lighter than the main chain
@@ -1009,8 +1113,21 @@ fn gen_case(ex: &mut Exec, rng: &mut Rng, case: u64, target_blocks: u64) {
                 for _ in 0..j {
                     p = g.build(ex, rng, p, false);
                 }
-                tips.push(p);
                 ex.out_count("fork_crossing_epoch_boundary_lighter");
+                // … and sometimes let it overtake while both tips are inside the same epoch number and
+                // the new tip is not an epoch head (META current-epoch must follow: `fork.has_detached()`)
+                if rng.chance(1, 2) && (tipn + 1) / l == k {
+                    let mut need = tipn + 1 - ex.ablocks[&p].number.min(tipn);
+                    while need > 0 && g.next_blk <= target_blocks + 12 {
+                        p = g.build(ex, rng, p, false);
+                        need -= 1;
+                    }
+                    if ex.tip_id() == p {
+                        old_mains.push(tip);
+                    }
+                } else {
+                    tips.push(p);
+                }
             }
         } else if r < 87 {
             // a short side branch (equal or lower work), or extend an older side tip
@@ -1042,15 +1159,30 @@ fn gen_case(ex: &mut Exec, rng: &mut Rng, case: u64, target_blocks: u64) {
         let k = rng.below(ex.n_state_ops() as u64);
         ex.apply(&format!("snap {}", k));
     }
-    let fp = format!("l{}w{}.{}d{:?}", l, w.0, w.1, ex.reorg_depths);
+    let fp = format!("l{}w{}.{}d{:?}s{:?}", l, w.0, w.1, ex.reorg_depths, ex.reorg_shapes);
     if !ex.reorg_depths.is_empty() {
         ex.out.nontrivial(fp);
     }
     ex.reorg_depths.clear();
+    ex.reorg_shapes.clear();
     ex.end_case();
 }
 
+#[path = "c02_fork.rs"]
+mod fork;
+
 pub fn run(opts: &Opts) {
+    // stream `fork` (find_fork on stored block trees): see c02_fork.rs
+    if opts.extra.first().map(|s| s.as_str()) == Some("fork") {
+        return fork::run(opts);
+    }
+    if let Some(rp) = &opts.replay {
+        // corpus files are offered to every stream: the `fork` files are not for this one
+        if fork::is_fork_file(&read_replay_ops(rp)) {
+            Out::new(&opts.out).finish("replay");
+            return;
+        }
+    }
     let base = scratch_dir(&opts.out, "c02");
     let mut out = Out::new(&opts.out);
     {
